@@ -44,9 +44,7 @@ func (s *c14state) key() string {
 		ks = append(ks, k+"="+v)
 	}
 	sort.Strings(ks)
-	var b strings.Builder
-	canonJSON(s.Step, &b)
-	return b.String() + "|" + strings.Join(ks, ";") + "|" + s.Repo + "|" + s.Kind
+	return s.Step.JSON() + "|" + strings.Join(ks, ";") + "|" + s.Repo + "|" + s.Kind
 }
 
 // canon: signed content + algorithm name; pipeline variables shadowed by the
@@ -492,7 +490,7 @@ func init() {
 	register(&report.Check{
 		ID:      "C14",
 		Workers: 1,
-		Rule: "explicit-state BFS (depth 2 with the EdDSA key, depth 1 with ES512 / PS512 / ES256-signer) over mutations of (step JSON, pipeline env, repository URL, algorithm) from the four initial states of C01: " +
+		Rule: "explicit-state BFS (depth 2 with the EdDSA key, depth 1 with ES512 / PS512 / ES256-signer) over mutations of (step JSON, pipeline env, repository URL, algorithm) from the five initial states of C01: " +
 			"all step mutations of C01 (single-point changes, re-orderings, re-spellings, key/value and item/item boundary shifts) plus pipeline-env changes, name/value boundary shifts, moving a variable between step env and " +
 			"pipeline env (also as a step env entry literally named env::NAME), command/repository-URL boundary shifts and algorithm changes. The payload bytes logged by Sign and by Verify are recorded per state; states are " +
 			"classed by the harness's canonical semantic form + algorithm name: within a class all payloads must be byte-identical and equal between Sign and Verify, across classes pairwise distinct (hash map keyed by payload). " +
